@@ -29,6 +29,9 @@ CLAIMED = {
  "C10": ("ownership / invalidation rules per cache (who-may-write, dominance, sibling agreement), local type facts on line generators, taint (non-interference) of palette values on layout code",
          "Turns 'for all histories of renderings and discarded configurations' into rules about caches and about what rendering code may depend on: no identity-keyed long-lived cache without ownership, configuration cache reset on growth, lookup/store agreement incl. the per-class no_color slot, global re-sync of synced palettes, no palette snapshot stored on rendering objects, lazy result guarded on every accessor with iteration delegating to the line generator, whole = newline-join of lines, every line generator yields CHText, and palette values / no_color never reach conditions, len(), comparisons or arithmetic in the rendering modules.",
          "Character-for-character equality of stripped coloured output and no_color output is NOT compared (it follows from C09's pairing + the non-interference rule, which checks flows, not characters); yields whose type cannot be decided locally are listed in evidence, not judged; the lazy result object itself keeps the palette of the call that created it (by design).", "3/C10"),
+ "C13": ("abstract interpretation of serialiser and parser over symbolic token strings (atoms = all names / all non-negative ints), comparing slots written and slots read; sibling agreement of construction sites",
+         "Decides writer/reader agreement for the column description and table format grammars exhaustively over their finite state spaces (16 column states, 12 table-format states, separators-only strings, a three-column list): whatever to_fmt_str / _get_fmt_str can emit is interpreted through _parse_col_fmt / _PPTableParsedFmt on token strings whose atoms stand for every field name, modifier and integer, and each value must land in the slot it was written from; plus slot order at every ReprColumn construction site and the 'empty format changes nothing' branches.",
+         "Assumes field names and modifiers contain none of the format's punctuation. That re-negotiated widths equal the previous ones (same records) is value-level and not decided. A serialiser/parser using string operations outside the interpreted subset ends in ANALYSIS-ERROR.", "3/C13"),
 }
 
 NOT_APPLICABLE = {
